@@ -229,10 +229,10 @@ func runC04(r *core.Run) {
 		ntPerPair[name] = nt
 	}
 	if r.Variant == "" {
-		for _, v := range []string{"rev@3", "encfirst+rev@1", "warm@4"} {
+		for _, v := range []string{"rev@3", "encfirst+rev@1", "warm@4", "genfirst+rot1@2"} {
 			r.RunVariantChild(v, 10*time.Minute, false)
 		}
-		r.Obs("fresh_process_variants", []string{"rev@3", "encfirst+rev@1", "warm@4"})
+		r.Obs("fresh_process_variants", []string{"rev@3", "encfirst+rev@1", "warm@4", "genfirst+rot1@2"})
 	}
 	r.Exhaustive = r.Thorough()
 	r.Obs("reference_channels_below0_above1_per_pair", clipStats)
